@@ -619,6 +619,11 @@ func (this *Writer) Close() error {
 }
 
 func (this *Writer) processBlock() error {
+	if atomic.LoadInt32(&this.blockID) == _CANCEL_TASKS_ID {
+		// A previous block could not be processed: the bitstream is incomplete
+		return &IOError{msg: "Stream corrupted by a previous failure", code: kanzi.ERR_WRITE_FILE}
+	}
+
 	if err := this.writeHeader(); err != nil {
 		return err
 	}
